@@ -46,8 +46,17 @@ def _registered(name: str, module):
             sys.modules[name] = previous
 
 
-# Helper modules that programs imported from their own directories: module name -> that directory.
+# Helper modules that programs imported from their own directories:
+# module name -> (that directory, the file's path, modification time and size when it was imported).
 _PROGRAM_HELPERS: dict = {}
+
+
+def _file_stamp(location: str):
+    try:
+        stat = os.stat(location)
+    except OSError:
+        return None
+    return (location, stat.st_mtime_ns, stat.st_size)
 
 
 @contextmanager
@@ -55,10 +64,11 @@ def _program_imports(script_dir: str):
     """While a program runs its directory is first on `sys.path`, so that it finds the helper
     modules stored next to it; afterwards the directory is taken off the path again. Helper
     modules stay loaded for the next program of the same directory, but are forgotten before a
-    program from another directory runs: it must get its own `helpers.py`, not this one's."""
+    program from another directory runs (it must get its own `helpers.py`, not this one's) and
+    when their file has changed since (the next program must run the code that is on disk)."""
     root = os.path.join(os.path.abspath(script_dir), "")
-    for name, owner in list(_PROGRAM_HELPERS.items()):
-        if owner != root:
+    for name, (owner, stamp) in list(_PROGRAM_HELPERS.items()):
+        if owner != root or stamp is None or _file_stamp(stamp[0]) != stamp:
             del _PROGRAM_HELPERS[name]
             sys.modules.pop(name, None)
     sys.path.insert(0, script_dir)
@@ -73,7 +83,7 @@ def _program_imports(script_dir: str):
         for name in set(sys.modules) - before:
             location = getattr(sys.modules.get(name), "__file__", None)
             if location and os.path.abspath(location).startswith(root):
-                _PROGRAM_HELPERS[name] = root
+                _PROGRAM_HELPERS[name] = (root, _file_stamp(os.path.abspath(location)))
 
 
 @add_timer(timer_name="nada_dsl.compile.compile")
